@@ -184,9 +184,17 @@ func (c *compiler) mangledNameDecl(decl ast.Declaration) string {
 			return decl.Name()
 		}
 		if ast.IsGenericInstantiation(decl) {
-			declName += "_generic_"
+			declName += "_generic"
 			for _, p := range decl.Parameters {
-				declName += strings.ReplaceAll(p.Type.Type.String(), " ", "_")
+				// separated, and with the mangled names of declared types: instantiations with
+				// same-named types of different modules (or types like Haus+Nummer and HausNummer) must not collide
+				typeName := p.Type.Type.String()
+				if elem := ddptypes.GetNestedListElementType(p.Type.Type); elem != nil {
+					if _, isDeclared := c.typeMap[elem]; isDeclared {
+						typeName = strings.Replace(typeName, elem.String(), c.mangledNameType(elem), 1)
+					}
+				}
+				declName += "_" + strings.ReplaceAll(typeName, " ", "_")
 			}
 		}
 	case *ast.VarDecl:
